@@ -31,7 +31,90 @@ def _run_text_solver(cmd, text, timeout):
     return "unknown", dt, out[:300]
 
 
-def check(assertions, timeout_s=60, cross=True, want_model=True):
+def _fix_text(text):
+    # z3 prints its internal "divisor known non-zero" operators; they coincide with the SMT-LIB ones
+    for a, b in (("bvsdiv_i", "bvsdiv"), ("bvsrem_i", "bvsrem"), ("bvudiv_i", "bvudiv"), ("bvurem_i", "bvurem"), ("bvsmod_i", "bvsmod")):
+        text = text.replace(a, b)
+    return text
+
+
+def check_int_route(assertions, timeout_s, want_model=True):
+    """Exact integer re-encoding (vlib/bv2int.py).  Decided by z3 (wheel) and confirmed by z3 4.8.12 or cvc5."""
+    from . import bv2int
+    try:
+        ints, tr = bv2int.translate(assertions)
+    except bv2int.Unsupported as e:
+        return "unknown", None, {"int_route": "unsupported: %s" % e}
+    s = z3.Solver()
+    s.set("timeout", int(timeout_s * 1000))
+    s.add(*ints)
+    t0 = time.time()
+    r = s.check()
+    STATS["z3_s"] += time.time() - t0
+    res = "sat" if r == z3.sat else ("unsat" if r == z3.unsat else "unknown")
+    info = {"int_route_z3": res}
+    if res == "unknown":
+        return res, None, info
+    text = "(set-logic ALL)\n" + s.to_smt2()
+    r2, dt, _ = _run_text_solver([Z3_OLD, "-in", "-T:%d" % int(timeout_s)], text, timeout_s + 5)
+    STATS["z3old_queries"] += 1
+    STATS["z3old_s"] += dt
+    info["int_route_z3_4.8"] = r2
+    if r2 != res:
+        r3, dt3, _ = _run_text_solver([CVC5, "--lang", "smt2", "--tlimit=%d" % int(timeout_s * 1000)], text, timeout_s + 5)
+        STATS["cvc5_queries"] += 1
+        STATS["cvc5_s"] += dt3
+        info["int_route_cvc5"] = r3
+        if r3 != res:
+            return "unknown", None, info
+    model = None
+    if res == "sat" and want_model:
+        m = s.model()
+        fix = []
+        for name, iv in tr.vars.items():
+            val = m.eval(iv, model_completion=True).as_long()
+            # find the BV variable of that name among the assertions
+            fix.append((name, val))
+        s2 = z3.Solver()
+        s2.set("timeout", int(timeout_s * 1000))
+        s2.add(*assertions)
+        consts = {}
+        for a in assertions:
+            _collect_consts(a, consts)
+        for name, val in fix:
+            if name in consts:
+                s2.add(consts[name] == z3.BitVecVal(val, consts[name].size()))
+        if s2.check() == z3.sat:
+            model = s2.model()
+        else:
+            return "unknown", None, dict(info, note="integer model does not satisfy the bit-vector query")
+    return res, model, info
+
+
+def _collect_consts(t, out, seen=None):
+    seen = seen if seen is not None else set()
+    if t.get_id() in seen:
+        return
+    seen.add(t.get_id())
+    if z3.is_const(t) and t.decl().kind() == z3.Z3_OP_UNINTERPRETED and z3.is_bv(t):
+        out[str(t)] = t
+    for c in t.children():
+        _collect_consts(c, out, seen)
+
+
+def check(assertions, timeout_s=60, cross=True, want_model=True, int_route=False):
+    if int_route:
+        # queries that need multiplication/division reasoning: the exact integer re-encoding is tried first
+        # (it finds counterexamples and proofs in well under a second where bit-blasting does not finish);
+        # bit-blasting is the fallback
+        r2, model2, info2 = check_int_route(assertions, timeout_s, want_model)
+        if r2 != "unknown":
+            STATS["queries"] += 1
+            STATS[r2] += 1
+            return r2, model2, info2
+        r, model, info = check(assertions, timeout_s=timeout_s, cross=cross, want_model=want_model)
+        info.update(info2)
+        return r, model, info
     STATS["queries"] += 1
     s = z3.Solver()
     s.set("timeout", int(timeout_s * 1000))
@@ -44,7 +127,7 @@ def check(assertions, timeout_s=60, cross=True, want_model=True):
     info = {"z3": res}
     model = s.model() if (res == "sat" and want_model) else None
     if cross:
-        text = "(set-logic ALL)\n" + s.to_smt2()
+        text = _fix_text("(set-logic ALL)\n" + s.to_smt2())
         r2, dt, err = _run_text_solver([CVC5, "--lang", "smt2", "--tlimit=%d" % int(timeout_s * 1000)], text, timeout_s + 5)
         STATS["cvc5_s"] += dt
         STATS["cvc5_queries"] += 1
